@@ -2293,7 +2293,11 @@ class Release(_multivalued):
         if self.size_field_behavior == "apt-ftparchive":
             return 16
         if self.size_field_behavior == "dak":
-            lengths = [len(str(item['size'])) for item in self[key]]
+            value = self[key]
+            if hasattr(value, 'keys'):
+                # single-line field: one record, not a list of records
+                value = [value]
+            lengths = [len(str(item['size'])) for item in value]
             return max(lengths)
         raise ValueError("Illegal value for size_field_behavior")
 
